@@ -1,16 +1,26 @@
 SPEC = {
     "id": "C13",
-    "level_text": "Theorems (Coq, all address lists of any length): with the ::/64 wildcard the advertised prefixes are exactly the /64 networks of the eligible addresses (IPv6, not link-local, length 64, not temporary, not tentative), without duplicates, strictly ascending, a function of the SET of listed entries only (permutation- and multiplicity-invariant), every option carries the stanza's length, flags and (C16) lifetimes, and a listing failure is an error. The executable model of Prefix.current/apply/Apply is tied to the real code by differential runs on injected address lists.",
-    "level_note": "Trusted: Coq kernel + vm_compute; the Go driver and the rendering of cases; net/netip predicates (Masked, IsLinkLocalUnicast incl. its IPv4-mapped branch) are modelled arithmetically and sampled by the correspondence; rtnetlink flag decoding is outside the model.",
-    "drivers": [{"pkg": "internal/plugin", "test": "TestVerifC13"}],
+    "level_text": "Theorems (Coq, all address lists of any length): with the ::/64 wildcard the advertised prefixes are exactly the /64 networks of the eligible addresses (IPv6, not link-local, length 64, not temporary, not tentative), without duplicates, strictly ascending, a function of the SET of listed entries only (permutation- and multiplicity-invariant), every option carries the stanza's length, flags and (C16) lifetimes, and a listing failure is an error -- down to the rtnetlink layer: a failed netlink request (with or without messages) makes AddressesByIndex fail, hence the plugin's source, hence Apply (C13_listing_failure); a successful request yields exactly the listed addresses with the documented meaning of the IFA_F_* bits and valid-forever (C13_listing_exact). The executable models of Prefix.current/apply/Apply and of addresser.AddressesByIndex / routesByIndex are tied to the real code by differential runs on injected address lists and on scripted netlink answers.",
+    "level_note": "Trusted: Coq kernel + vm_compute; the Go driver and the rendering of cases; net/netip predicates (Masked, IsLinkLocalUnicast incl. its IPv4-mapped branch) are modelled arithmetically and sampled by the correspondence; the rtnetlink library itself (socket, message (un)marshalling) is outside the model: the answer of the injected execute function is the input.",
+    "drivers": [{"pkg": "internal/plugin", "test": "TestVerifC13"},
+                {"pkg": "internal/system", "test": "TestVerifC13Addresser", "corr_module": "Corr.C13sys"}],
     "rule": "bounded-exhaustive: every sequence with repetition of length <= 3 (quick) / <= 4 (thorough) over a 14-entry pool "
             "(= all subsets x all permutations, plus all multiplicities) mixing ULA/GUA/link-local/IPv4, lengths 48/64/128, each flag, "
             "two hosts per /64, the edges of fe80::/10; random lists up to length 40 (exact duplicates, IPv4, IPv4-mapped, random "
-            "lengths/flags, wildcard lengths other than 64); listing failure and unprepared plugin. Non-trivial = at least two listed "
+            "lengths/flags, wildcard lengths other than 64); listing failure and unprepared plugin. rtnetlink layer (real linux addresser, scripted execute): every failure class (ENODEV, ENOBUFS, "
+            "EMFILE, EINTR, opaque) x nil messages / partial dump x 0..3 messages for addresses and routes; the flag table (21 flag words incl. every "
+            "documented bit, ignored bits, neighbours, all-ones x 7 valid-lifetime values); every prefix length 0..128; route preference absent / 0..4 / 255; "
+            "random dumps of 0..6 messages (25% failing); LoopbackRoutes with a failing route request (assertion only). Non-trivial = at least two listed "
             "entries or a failing source; distinct by canonical input.",
-    "nontrivial": lambda c: len(c.get("input", {}).get("addrs") or []) >= 2 or c.get("input", {}).get("source") != "ok",
+    "nontrivial": lambda c: (len(c.get("input", {}).get("messages") or []) >= 1 or c.get("input", {}).get("failure") != "none")
+                            if "failure" in c.get("input", {})
+                            else (len(c.get("input", {}).get("addrs") or []) >= 2 or c.get("input", {}).get("source") != "ok"),
     "trusted": ["net/netip Masked / IsLinkLocalUnicast / Is4 are modelled by Base.IP.mask, Model.Wildcard.go_link_local and the ip_v4 flag",
-                "system.Addresser (rtnetlink address dump and flag decoding) enters the model as the input list"],
+                "the plugin-level theorems take the address list as input; the rtnetlink request below system.Addresser (socket, wire format) enters "
+                "Model.Addresser as the answer of execute; IFA_F_* values are those of linux/if_addr.h (the driver passes golang.org/x/sys/unix's "
+                "constants numerically, a wrong literal in the model shows as a disagreement)",
+                "malformed rtnetlink messages (wrong family, nil attributes, IPv4 / IPv4-mapped addresses) make the addresser panic on purpose and are not generated"],
+    "extra_targets": ["Proofs/Addresser.v"],
     "assumptions": ["addresses carry no zone (rtnetlink never reports one)",
                     "every listed system.IP has a valid Address prefix (bits within the family's range)"],
 }
